@@ -31,6 +31,7 @@ RULES = {
     'R6': 'encoder of Height vs Ord for Utxo; scan bounds; Ord for Utxo as a lexicographic chain; MultiIter merge table; order agreement with the index key (= C06.R7)',
     'R7': 'every admitted block is applied, coupled with the tip label (= C04.R2/R4)',
     'R8': 'spent filter on both sources; apply_block records removed and added outpoints',
+    'R10': 'codecs of the stable stores: component order of the writers ((TxOut, Height), (Height, OutPoint), AddressUtxo to_bytes / into_bytes) and the matching split points of the readers',
     'R9': 'lookup order of spent outputs when an unstable block is cached: unstable cache, same block, stable set (reverting accessor)',
 }
 ASSUMPTIONS = ['ic-stable-structures orders keys lexicographically by their bytes']
@@ -55,6 +56,10 @@ def run(ctx):
     r6(ctx)
     r8(ctx)
     r9(ctx)
+    # R10: what is read back from stable memory is what was written (writer/reader layout agreement of the
+    # value and key codecs; to_bytes and into_bytes of the index key agree)
+    from rules import codecs
+    codecs.all_codecs(ctx, 'R10')
     # R7: every admitted block of the walked chain is applied, together with the tip label the answer
     # names (shared with C04.R2/R4), for every request kind (no request-dependent shortcut)
     from sa.engine import SubCtx
